@@ -1,10 +1,11 @@
-"""C25 native replay (emu-mps, permutation clause): with qubit-order optimisation on, the bad-atom
+"""C25 native replay (emu-mps, permutation clauses): with qubit-order optimisation on, the bad-atom
 filter must select the SITES of the well-prepared atoms (site k <-> atom perm[k]): bad atoms stay
-in |g>, the others evolve as without reordering."""
+in |g>, the others keep their own drives and couplings and evolve as without reordering."""
 import os, sys
 sys.path.insert(0, os.path.dirname(os.path.abspath(__file__)))
 import torch
 import perm_native as N
+import perm_units as U
 
 
 def main():
@@ -16,33 +17,27 @@ def main():
     if perm == [0, 1, 2, 3]:
         print("NOT-REPRODUCED: the optimiser kept the register order (scenario needs a reordering)")
         return 0
-    impl.init()
-    filt = impl.well_prepared_qubits_filter.tolist()
-    want = [not bad[p] for p in perm]
-    J = N.chain_matrix()
-    good = [p for p in perm if not bad[p]]
-    want_J = J[good][:, good]
     msgs = []
-    if filt != want:
-        msgs.append(f"atom 0 is badly prepared, perm = {perm}: the per-site filter is {filt}, expected "
-                    f"well_prepared[perm[k]] = {want}")
-    if not torch.equal(impl.current_interaction_matrix, want_J):
-        msgs.append(f"reduced interaction matrix {impl.current_interaction_matrix.tolist()} is not that of the good atoms "
-                    f"{good}: {want_J.tolist()}")
+    m = U.dark_qubits_unit()
+    if m:
+        msgs.append(m)
     _, r_on = N.run(True, bad)
     _, r_off = N.run(False, bad)
     a, b = torch.as_tensor(r_on.occupation[-1]), torch.as_tensor(r_off.occupation[-1])
     if a[0].abs() > 1e-12 or not torch.allclose(a, b, atol=1e-6):
-        msgs.append(f"final occupations (atom order {tuple(r_on.atom_order)}) with reordering {[round(float(x), 5) for x in a]}"
-                    f" vs without {[round(float(x), 5) for x in b]}: bad atom 0 must stay at 0")
+        msgs.append(f"atom 0 badly prepared, perm {perm}: final occupations (atom order {tuple(r_on.atom_order)}) with "
+                    f"reordering {[round(float(x), 5) for x in a]} vs without {[round(float(x), 5) for x in b]}: bad atom 0 "
+                    "must stay at 0 and the others must agree")
     if msgs:
         print("REPRODUCED: " + msgs[0])
         for m in msgs[1:]:
             print("  also: " + m)
         return 1
-    print(f"NOT-REPRODUCED: perm {perm}, bad atom 0: filter {filt}, reduced matrix and occupations as without reordering")
+    print(f"NOT-REPRODUCED: perm {perm}: per-site filter, reduced drives / matrix of the good atoms, occupations as "
+          "without reordering")
     return 0
 
 
 if __name__ == "__main__":
-    sys.exit(main())
+    ROOT = os.path.abspath(sys.argv[2] if len(sys.argv) > 2 else os.getcwd())
+    sys.exit(N.cached("c25", main, ROOT))
